@@ -1100,3 +1100,66 @@ func (c *Check) normalizeUnconditional() {
 		c.ok("C07-R1", "normalize:always", p.relFile(norm.Pos()), "-normalize is honoured whatever the other base options are", "assuming s.Normalize, combineProfiles is unreachable without passing the Normalize call")
 	}
 }
+
+// ---------------------------------------------------------------- C18: edges only between declared nodes
+
+// dotEdgesDeclared: ComposeDot numbers the nodes of the graph it was given and looks the
+// endpoints of every edge up in that numbering.  A node that was dropped from the graph
+// (values that cancel in a diff, drop_negative) can still be the destination of an edge of a
+// kept node; such an edge must be skipped, or its endpoint id is 0 - a node that is never
+// declared.  Every edge that reaches addEdge must have passed a membership test of its
+// destination in the id map.
+func (c *Check) dotEdgesDeclared() {
+	p := c.P
+	f := c.anchorFn("C18-R1", "internal/graph", "ComposeDot")
+	if f == nil {
+		return
+	}
+	// the id map: the map[*Node]int whose lookups feed addEdge
+	var idMap ssa.Value
+	var addEdge *ssa.Call
+	for _, b := range f.Blocks {
+		for _, ins := range b.Instrs {
+			if call, ok := ins.(*ssa.Call); ok && call.Call.StaticCallee() != nil && call.Call.StaticCallee().Name() == "addEdge" {
+				addEdge = call
+				for _, a := range call.Call.Args {
+					if lk, ok := a.(*ssa.Lookup); ok {
+						idMap = lk.X
+					}
+				}
+			}
+		}
+	}
+	if addEdge == nil || idMap == nil {
+		c.undecided("C18-R1", "edges-declared", p.relFile(f.Pos()), "ComposeDot no longer numbers edge endpoints through a node-id map")
+		return
+	}
+	// a comma-ok lookup (or comparison of a lookup with 0) of an edge's Dest in the id map, anywhere
+	// on the way of the edges from the nodes' Out maps to addEdge
+	tested := false
+	for _, b := range f.Blocks {
+		for _, ins := range b.Instrs {
+			lk, ok := ins.(*ssa.Lookup)
+			if !ok || lk.X != idMap {
+				continue
+			}
+			if !isFieldLoad(lk.Index, "graph.Edge", "Dest") {
+				continue
+			}
+			if lk.CommaOk {
+				tested = true
+			} else if lk.Referrers() != nil {
+				for _, r := range *lk.Referrers() {
+					if cmp, ok := r.(*ssa.BinOp); ok && (cmp.Op == token.EQL || cmp.Op == token.NEQ) {
+						tested = true
+					}
+				}
+			}
+		}
+	}
+	if tested {
+		c.ok("C18-R1", "edges-declared", p.relFile(addEdge.Pos()), "an edge is emitted only when its destination is a node of the graph being written", "the destination's membership in the node-id map is tested before the edge is collected or written")
+	} else {
+		c.bad("C18-R1", "edges-declared", p.relFile(addEdge.Pos()), "ComposeDot looks up the id of an edge's destination without testing that the destination is one of the graph's nodes: a node dropped from the graph (its values cancel in a diff, or drop_negative) is still the destination of edges of kept nodes, and those edges are written as `Nk -> N0`, a node that is never declared")
+	}
+}
